@@ -92,22 +92,30 @@ class Ctx:
             self._keep[i] = [n[x].element for x in ids]
         return self._keep[i]
 
-    def cir(self):
-        if 'c' not in self._cir:
-            self._cir['c'] = cc.lib_circuit(self.pool['circuit'])
-        return self._cir['c']
+    def cir_spec(self, which=0):
+        return self.pool['circuit'] if not which else self.pool['circuit2']
 
-    def dyn(self):
-        if 'd' not in self._dyn:
-            self._dyn['d'] = cc.lib_circuit(self.pool['dynamic'])
-        return self._dyn['d']
+    def dyn_spec(self, which=0):
+        return self.pool['dynamic'] if not which else self.pool['dynamic2']
 
-    def cl(self):
+    def cir(self, which=0):
+        if which not in self._cir:
+            self._cir[which] = cc.lib_circuit(self.cir_spec(which))
+        return self._cir[which]
+
+    def dyn(self, which=0):
+        if which not in self._dyn:
+            self._dyn[which] = cc.lib_circuit(self.dyn_spec(which))
+        return self._dyn[which]
+
+    def cl(self, which=0):
         if self._cl is None:
-            c = self.dyn()
-            self._cl = ({x.id: float(x.value['C']) for x in c.components if x.type == 'capacitor'},
-                        {x.id: float(x.value['L']) for x in c.components if x.type == 'inductance'})
-        return self._cl
+            self._cl = {}
+        if which not in self._cl:
+            c = self.dyn(which)
+            self._cl[which] = ({x.id: float(x.value['C']) for x in c.components if x.type == 'capacitor'},
+                               {x.id: float(x.value['L']) for x in c.components if x.type == 'inductance'})
+        return self._cl[which]
 
     def snapshot(self):
         """deep snapshot of everything an operation could wrongly edit"""
@@ -119,10 +127,11 @@ class Ctx:
             snap[f'net{i}'] = canon(cnet(n))
         for i, k in self._keep.items():
             snap[f'keep{i}'] = canon([[e.name, e.type, cnum(complex(e.Z)) if np.isfinite(e.Z) else 'inf'] for e in k])
-        for nm, c in list(self._cir.items()) + list(self._dyn.items()):
-            snap[f'circuit-{nm}'] = canon([[x.type, x.id, list(x.nodes), cval(x.value)] for x in c.components] + [c.ground_node])
-        if self._cl is not None:
-            snap['c_values/l_values'] = canon([list(self._cl[0].items()), list(self._cl[1].items())])
+        for tag, group in (('phasor', self._cir), ('dynamic', self._dyn)):
+            for nm, c in group.items():
+                snap[f'circuit-{tag}{nm}'] = canon([[x.type, x.id, list(x.nodes), cval(x.value)] for x in c.components] + [c.ground_node])
+        for nm, (cv, lv) in (self._cl or {}).items():
+            snap[f'c_values/l_values{nm}'] = canon([list(cv.items()), list(lv.items())])
         for f in (trf.remove_short_circuit_elements, trf.short_circuitify_voltage_sources, trf.open_circuitify_current_sources, trf.remove_ideal_current_sources,
                   trf.remove_ideal_voltage_sources, trf.passive_network, ssm.state_space_matrices, ssm.nodal_state_space_model, cssm.state_space_model, cir.transform):
             snap[f'defaults:{f.__name__}'] = repr([d for d in (f.__defaults__ or ()) if isinstance(d, (list, dict))])
@@ -168,6 +177,14 @@ def op_solve(ctx, a):
     return _solution(nodal_analysis_bias_point_solver(ctx.net(a['i'])), ctx.pool['nets'][a['i']])
 
 
+def op_solve_reref(ctx, a):
+    from CircuitCalculator.Network.NodalAnalysis.bias_point_analysis import nodal_analysis_bias_point_solver
+    from CircuitCalculator.Network.transformers import switch_ground_node
+    spec = ctx.pool['nets'][a['i']]
+    nodes = rs.nodes_of(spec)
+    return _solution(nodal_analysis_bias_point_solver(switch_ground_node(ctx.net(a['i']), nodes[a['p'] % len(nodes)])), spec)
+
+
 def _port(ctx, a):
     nodes = rs.nodes_of(ctx.pool['nets'][a['i']])
     return nodes[a['p'] % len(nodes)], nodes[(a['p'] + a['q']) % len(nodes)]
@@ -210,9 +227,11 @@ def op_transformer(ctx, a):
 
 def op_transform(ctx, a):
     from CircuitCalculator.Circuit.circuit import transform, frequency_components
-    c = ctx.cir()
+    c = ctx.cir(a.get('which', 0))
     if a.get('default_w'):
         nets = transform(c)
+    elif a.get('res') is not None:
+        nets = transform(c, a['ws'], a['res'])
     else:
         nets = transform(c, a['ws'])
     return {'nets': [cnet(n) for n in nets], 'freqs': cval(frequency_components(c, a['w_max']))}
@@ -239,27 +258,28 @@ def _circuit_solution(sol, spec, times=None):
 
 def op_dc(ctx, a):
     from CircuitCalculator.Circuit.solution import DCSolution
-    return _circuit_solution(DCSolution(ctx.cir()), ctx.pool['circuit'])
+    return _circuit_solution(DCSolution(ctx.cir(a.get('which', 0))), ctx.cir_spec(a.get('which', 0)))
 
 
 def op_complex(ctx, a):
     from CircuitCalculator.Circuit.solution import ComplexSolution
-    return _circuit_solution(ComplexSolution(ctx.cir(), w=a['w'], peak_values=a['peak']), ctx.pool['circuit'])
+    return _circuit_solution(ComplexSolution(ctx.cir(a.get('which', 0)), w=a['w'], peak_values=a['peak']), ctx.cir_spec(a.get('which', 0)))
 
 
 def op_time(ctx, a):
     from CircuitCalculator.Circuit.solution import TimeDomainSolution
-    return _circuit_solution(TimeDomainSolution(ctx.cir(), w_max=a['w_max']), ctx.pool['circuit'], times=a['times'])
+    return _circuit_solution(TimeDomainSolution(ctx.cir(a.get('which', 0)), w_max=a['w_max']), ctx.cir_spec(a.get('which', 0)), times=a['times'])
 
 
 def op_frequency(ctx, a):
     from CircuitCalculator.Circuit.solution import FrequencyDomainSolution
-    return _circuit_solution(FrequencyDomainSolution(ctx.cir(), w_max=a['w_max']), ctx.pool['circuit'])
+    return _circuit_solution(FrequencyDomainSolution(ctx.cir(a.get('which', 0)), w_max=a['w_max']), ctx.cir_spec(a.get('which', 0)))
 
 
 def op_state_space(ctx, a):
     from CircuitCalculator.Circuit.state_space_model import state_space_model
-    spec = ctx.pool['dynamic']
+    wh = a.get('which', 0)
+    spec = ctx.dyn_spec(wh)
     ids = [c['id'] for c in spec['components'] if c['kind'] != 'ground']
     nodes = []
     for c in spec['components']:
@@ -267,29 +287,34 @@ def op_state_space(ctx, a):
             if n not in nodes:
                 nodes.append(n)
     if a.get('defaults'):
-        m = state_space_model(ctx.dyn())
+        m = state_space_model(ctx.dyn(wh))
     else:
-        m = state_space_model(ctx.dyn(), potential_nodes=nodes[:2], voltage_ids=ids[:2], current_ids=ids[-2:])
+        m = state_space_model(ctx.dyn(wh), potential_nodes=nodes[:2], voltage_ids=ids[:2], current_ids=ids[-2:])
     return {'A': cval(m.A), 'B': cval(m.B), 'C': cval(m.C), 'D': cval(m.D)}
 
 
 def op_nodal_ssm(ctx, a):
     from CircuitCalculator.Circuit.circuit import transform_circuit
     from CircuitCalculator.Network.NodalAnalysis.state_space_model import nodal_state_space_model
-    c_values, l_values = ctx.cl()
-    m = nodal_state_space_model(transform_circuit(ctx.dyn(), w=0), c_values=c_values, l_values=l_values)
+    wh = a.get('which', 0)
+    c_values, l_values = ctx.cl(wh)
+    m = nodal_state_space_model(transform_circuit(ctx.dyn(wh), w=0), c_values=c_values, l_values=l_values)
     return {'A': cval(m.A), 'B': cval(m.B), 'sources': list(m.sources)}
 
 
 def op_transient(ctx, a):
     from CircuitCalculator.Circuit.solution import TransientSolution
-    spec = ctx.pool['dynamic']
+    wh = a.get('which', 0)
+    spec = ctx.dyn_spec(wh)
     srcs = [c for c in spec['components'] if c['kind'] in ('dc_voltage_source', 'dc_current_source')]
     t = np.arange(40) * a['dt']
     funcs = {c['id']: (lambda v: (lambda tt: v * np.minimum(np.asarray(tt, float) / a['dt'], 1.0)))(c['args'].get('V', c['args'].get('I'))) for c in srcs}
-    sol = TransientSolution(ctx.dyn(), tin=t, input=funcs)
+    sol = TransientSolution(ctx.dyn(wh), tin=t, input=funcs)
     ids = [c['id'] for c in spec['components'] if c['kind'] != 'ground']
-    return {i: [cval(sol.get_voltage(i)[1]), cval(sol.get_current(i)[1])] for i in ids}
+    out = {i: [cval(sol.get_voltage(i)[1]), cval(sol.get_current(i)[1]), cval(sol.get_power(i)[1])] for i in ids}
+    again = {i: cval(sol.get_voltage(i)[1]) for i in ids}
+    out['__invariants__'] = [['voltage-series-unchanged-by-later-queries', all(again[i] == out[i][0] for i in ids)]]
+    return out
 
 
 def op_load_network(ctx, a):
@@ -322,7 +347,7 @@ def op_undictify(ctx, a):
     return cval(encode_doc(dump_load.undictify_all_complex_values(enc)))
 
 
-OPS = {'solve': op_solve, 'impedance': op_impedance, 'ocv': op_ocv, 'element_impedance': op_element_impedance, 'transformer': op_transformer,
+OPS = {'solve': op_solve, 'solve_reref': op_solve_reref, 'impedance': op_impedance, 'ocv': op_ocv, 'element_impedance': op_element_impedance, 'transformer': op_transformer,
        'transform': op_transform, 'dc': op_dc, 'complex': op_complex, 'time': op_time, 'frequency': op_frequency, 'state_space': op_state_space,
        'nodal_ssm': op_nodal_ssm, 'transient': op_transient, 'load_network': op_load_network, 'to_complex': op_to_complex,
        'circuit_load': op_circuit_load, 'serialize': op_serialize, 'undictify': op_undictify}
@@ -357,7 +382,8 @@ def check_history(case, r: R):
     ctx = Ctx(pool)
     for i in range(len(pool['nets'])):
         ctx.net(i); ctx.keep(i)
-    ctx.cir(); ctx.dyn(); ctx.cl()
+    for wh in (0, 1):
+        ctx.cir(wh); ctx.dyn(wh); ctx.cl(wh)
     snap0 = ctx.snapshot()
     ops_seen, repeated, shared_reuse, touched = [], False, 0, set()
     for k, step in enumerate(steps):
@@ -375,6 +401,10 @@ def check_history(case, r: R):
             r.fail(f'{"raises-only-in-history" if got[0] == "raised" else "raises-only-in-isolation"}[{tag}]', f'step {k}: history {canon(got)[:120]} isolation {canon(fresh)[:120]}')
         elif not same(got[1], fresh[1]):
             r.fail(f'differs-from-isolation[{tag}]', f'step {k} of {len(steps)}: history {canon(got)[:160]} isolation {canon(fresh)[:160]}')
+        if got[0] == 'ok' and isinstance(got[1], dict):
+            for name, holds in got[1].get('__invariants__', []):
+                if not holds:
+                    r.fail(f'query-not-read-only[{tag}]', f'step {k}: {name}')
         again = run_op(ctx, step)
         if again[0] != got[0] or not same(again[1], got[1]):
             r.fail(f'repeat-differs[{tag}]', f'step {k}: {canon(got)[:120]} then {canon(again)[:120]}')
@@ -408,7 +438,9 @@ TRANSFORMERS = ['remove_short_circuit_elements', 'short_circuitify_voltage_sourc
 def step(draw, w0):
     op = draw(st.sampled_from(list(OPS) + ['transformer', 'transformer', 'load_network', 'to_complex', 'serialize', 'solve']))
     a = {}
-    if op in ('solve', 'impedance', 'ocv', 'element_impedance', 'transformer'):
+    if op in ('transform', 'dc', 'complex', 'time', 'frequency', 'state_space', 'nodal_ssm', 'transient'):
+        a['which'] = draw(st.sampled_from([0, 1]))
+    if op in ('solve', 'solve_reref', 'impedance', 'ocv', 'element_impedance', 'transformer'):
         a['i'] = draw(st.sampled_from([0, 1]))
         a['p'] = draw(st.sampled_from(range(6)))
         a['q'] = draw(st.sampled_from(range(1, 5)))
@@ -416,7 +448,8 @@ def step(draw, w0):
         a['name'] = draw(st.sampled_from(TRANSFORMERS))
         a['default_keep'] = draw(st.sampled_from([False, False, False, True]))
     if op == 'transform':
-        a.update(ws=[0.0, w0], default_w=draw(st.sampled_from([False, True])), w_max=3.5 * w0)
+        a.update(ws=[0.0, w0, w0 + 0.5], default_w=draw(st.sampled_from([False, False, True])), w_max=3.5 * w0,
+                 res=draw(st.sampled_from([None, 1e-6, 1.0, 10.0])))
     if op == 'complex':
         a.update(w=draw(st.sampled_from([0.0, w0, 2 * w0])), peak=draw(st.booleans()))
     if op in ('time', 'frequency'):
@@ -444,6 +477,11 @@ def history_case(draw):
     circuit = draw(cc.circuit(2, 4, 6, source_kinds_v=('dc_voltage_source', 'ac_voltage_source', 'periodic_voltage_source'),
                               source_kinds_i=('dc_current_source', 'ac_current_source'), w_pool=[w0], lossy_prob=0, forced_lossy=False))
     dynamic = draw(dy.ladder_circuit(max_sections=2))
+    # value-perturbed twins (same names, topology, listing order): interleaving analyses of a description and its twin
+    # exposes answers remembered by name or structure
+    if draw(st.sampled_from([True, False])):
+        nets[1] = gen.twin_network(nets[0])
+        keep[1] = list(keep[0])
     desc = draw(c17.net_case())['desc']
     doc = draw(c17.document())
     cdesc = draw(c17.cir_case())['desc']
@@ -452,7 +490,8 @@ def history_case(draw):
     steps = draw(st.lists(step(w0), min_size=10, max_size=30))
     # make sure the history repeats an operation and reuses shared arguments
     steps.append(copy.deepcopy(steps[draw(st.integers(0, len(steps) - 1))]))
-    return {'pool': {'nets': nets, 'keep': keep, 'circuit': circuit, 'dynamic': dynamic, 'desc': desc, 'doc': full_doc, 'polar': polar}, 'steps': steps}
+    return {'pool': {'nets': nets, 'keep': keep, 'circuit': circuit, 'circuit2': gen.twin_circuit(circuit), 'dynamic': dynamic,
+                     'dynamic2': gen.twin_circuit(dynamic), 'desc': desc, 'doc': full_doc, 'polar': polar}, 'steps': steps}
 
 
 TESTS = [
